@@ -20,6 +20,42 @@ META = {
    text="Operator.apply on generated (domain, call, state) cases whose firing effects are consistent; the serialized result is read by an independent reader and must equal the reference successor under the natural order and under drawn permutations of lifted/grounded effect sets and of the object table.",
    note="Trusts the reference successor. K3 through 'when' conditions judged against the defect model.",
    design="6/C03"),
+ "C04": dict(
+   technique="Hypothesis generation of (domain, problem, plan) histories against a step-by-step reference execution; exported text re-read with an independent reader",
+   text="TrajectoryExporter.parse_plan / export on generated plans with applicable and inapplicable steps interleaved (both settings of allow_invalid_actions): one triplet per line in order, first pre-state = initial state, chaining, reference successor on applicable steps, unchanged state on refused steps, exported text equals the triplets, direct apply of an inapplicable step raises.",
+   note="Once a step has no defined reference outcome only chaining is checked for the rest of that plan.",
+   design="6/C04"),
+ "C05": dict(
+   technique="Hypothesis generation of problem ASTs + single-point corruptions; oracle = source AST and an independent well-formedness checker (reference type closure)",
+   text="Valid generated problem texts must parse to exactly the AST (objects/types, facts, fluent values, goal literals, goal conditions); corrupted texts that the reference declares ill-formed must raise, corruptions that stay well-formed (subtype direction) must parse faithfully.",
+   note="Known findings: goal conditions are not validated (K6), function terms with a repeated object lose an argument in goal conditions (K2), fluents of arity >= 3 with a repeated object are re-ordered (K2, excluded by construction and counted).",
+   design="6/C05"),
+ "C06": dict(
+   technique="bounded-exhaustive enumeration of type forests x declaration permutations/regroupings + Hypothesis generation; oracle = reflexive-transitive closure",
+   text="For every forest up to a size bound under every permutation and regrouping of its declaration lines: is_sub_type on all ordered pairs, keys of domain.types, hierarchy graph edges, acceptance of problem facts/fluents for every (object type, required type) pair, constants of every type, and the set of objects touched by forall effects must all equal the closure of the declared tree.",
+   note="Trusts the reference closure (unit-tested).",
+   design="6/C06"),
+ "C09": dict(
+   technique="Hypothesis generation + all shipped problem files; round trip through the library's exporter and parser compared via public attributes and with the source AST",
+   text="parse -> export (string and file) -> parse must preserve name, objects/types, facts, fluent values exactly, goal literals and goal conditions; empty sections stay empty; exported text is balanced.",
+   note="Known findings K2 (ternary repeat re-ordered; goal function term with repeated object) judged against models / excluded and counted.",
+   design="6/C09"),
+ "C10": dict(
+   technique="Hypothesis generation of trajectories; round trip exporter -> file -> TrajectoryParser compared by the library's == and by independently read text",
+   text="Generated (domain, problem, plan) -> triplets -> exported file -> Observation with and without the problem's object table: one component per action, same calls, same states (== both ways and text read-back), chained.",
+   note="Deduced-objects mode only when every object occurs in the first state (documented precondition).",
+   design="6/C10"),
+ "C14": dict(
+   technique="bounded-exhaustive pairwise comparison over a small universe + Hypothesis generation; states built along independent routes; oracle = reference (fact set, fluent map) equality",
+   text="Library == must coincide with reference equality for states built by the problem parser, the trajectory parser, direct construction in permuted order, copy and as successors; reflexive/symmetric; copies equal and independent under in-place mutation of containers, facts and fluents; serializations read back (independent reader and parse_state) as equal exactly for equal states; -0.0 == 0.0.",
+   note="Fluent values are floats as every parser of the library produces them.",
+   design="6/C14"),
+ "C18": dict(
+   technique="Hypothesis generation of actions x injective renamings (fresh, permutations, chains); oracle = alpha-renamed source AST + differential against an untouched twin",
+   text="After Action.change_signature(map) the schema read back through public attributes must equal the renamed source (canonical structure, else behaviour), with the same number, order and types of parameters; the renamed action must answer every (call, state) probe like an untouched twin parsed from the same text.",
+   note="Maps cover the action's parameters only; probes whose effects conflict are excluded.",
+   design="6/C18"),
+
  "C11": dict(
    technique="bounded-exhaustive enumeration + Hypothesis generation against an independent reference reader (differential), atheris campaign in thorough",
    text="Differential test of PDDLTokenizer against a 40-line character-level reference reader: every token tree up to a node bound under every single-separator substitution and every single parenthesis deletion/insertion (exhaustive), plus generated larger trees/layouts/cases; both string and file input.",
